@@ -88,7 +88,8 @@ def _flatten_printouts(po):
     for k, v in (po or {}).items():
         if v:
             out.append(f"---- PRINTOUT: {k}")
-            out.extend(str(x) for x in v)
+            # a printed text that contains a line break takes several lines of printouts.txt (the file format is lines)
+            out.extend(ln for x in v for ln in str(x).split("\n"))
     return out
 
 
